@@ -449,6 +449,14 @@ theorem covered_parts {env : MEnv} {h : Heap} {target : Val} {sroot : Bool} {ori
     WF env = true ∧ classesOK env = true ∧ C01.wfSteps orig = true ∧ valWf vs = true ∧
       valUnsupported h vs = false ∧ missingOK env orig missing = true := by
   simp only [covered, Bool.and_eq_true, Bool.not_eq_true'] at hc
+  obtain ⟨hc, _⟩ := hc
   exact ⟨hc.1.1.1.1.1, hc.1.1.1.1.2, hc.1.1.1.2, hc.1.1.2, hc.1.2, hc.2⟩
+
+/-- the domain of the model's `int()` (a hypothesis about the model, not needed by the proofs) -/
+theorem covered_intSafe {env : MEnv} {h : Heap} {target : Val} {sroot : Bool} {orig : List Step}
+    {vs : ValSpec} {missing : Missing} (hc : covered env h target sroot orig vs missing = true) :
+    intSafe orig = true := by
+  simp only [covered, Bool.and_eq_true] at hc
+  exact hc.2.1
 
 end Glom.C11
